@@ -14,6 +14,7 @@ from vlib.filt import AREA, UIDS, build_impl, probe, uid_list, malformed_list, n
 
 EUIDS = [0, 7, 1000, 65534, 2 ** 32 - 2]
 HIGH_UIDS = [2 ** 32 - 10, 2 ** 32 - 6, 2 ** 32 - 3]      # the top of the uid range (2^32-1 is not a uid), fewer lists each
+NEUTRAL = b"exclude_spawns_of:nosuchproc9,nosuchproc8;"      # passes in every process tree of the harness
 ERRNOS = [34, 22]                                        # ERANGE, EINVAL: what the host program may have left in errno
 
 
@@ -53,6 +54,11 @@ def gen_cases(rng, tier):
                     add("uidf\t%s\t%d\t%d\t%s" % (w, r, e, hexs(b"%d" % e)), kind="wf", uid=r, n=1, include=False)
                     add("uidf\t%s\t%d\t%d\t%s" % (w, r, e, hexs(b"%d,%d" % (e, r))), kind="wf", uid=r, n=2, include=True)
         add("full\t%d\t%d\t0\t%s" % (r, e1, hexs(b"only_root")), kind="chain", uid=r)
+        # the list changed between two evaluations in one address space (the argument sits at the same address inside the chain copy)
+        for w in (b"only_uid:", b"exclude_uid:"):
+            for A, B in ((b"%d,7" % r, b"%d,7" % (r ^ 1)), (b"%d" % (r ^ 1), b"%d" % r), (b"5,%d,6" % r, b"5,%d,6" % (r ^ 2))):
+                add("full\t%d\t%d\t0\t%s" % (r, e1, hexs(w + A)), kind="chain", uid=r)
+                add("full\t%d\t%d\t0\t%s" % (r, e1, hexs(w + B)), kind="chain", uid=r)
         # single numerals, near misses one by one (prefixes / suffixes / +-1 / 2^31 apart)
         for v in [r] + near_misses(r):
             for w in ("only", "exclude"):
@@ -77,6 +83,10 @@ def gen_cases(rng, tier):
                 e2 = rng.choice([x for x in EUIDS if x not in (r, e)])
                 for w in ("only", "exclude"):
                     add("uidf\t%s\t%d\t%d\t%s" % (w, r, e2, hexs(L)), kind="wf", uid=r, n=L.count(b",") + 1, include=inc)
+                if len(L) < 850:
+                    # ... also behind a passing filter with a longer name and an argument (the uid filter must still be found)
+                    add("full\t%d\t%d\t0\t%s" % (r, e, hexs(NEUTRAL + b"only_uid:" + L)), kind="chain", uid=r)
+                    add("full\t%d\t%d\t0\t%s" % (r, e, hexs(NEUTRAL + b"exclude_uid:" + L)), kind="chain", uid=r)
                 if len(L) < 900:
                     add("full\t%d\t%d\t0\t%s" % (r, e, hexs(b"only_uid:" + L)), kind="chain", uid=r)
                     add("full\t%d\t%d\t0\t%s" % (r, e, hexs(b"exclude_uid:" + L)), kind="chain", uid=r)
@@ -124,6 +134,8 @@ def spec_line(cf, rf):
     if cf[0] == "full" and len(rf) > 1 and rf[1] in ("P", "D"):
         # a chain that consists of one uid filter decides as that filter
         ch = unhex(cf[4]) or b""
+        if ch.startswith(NEUTRAL):
+            ch = ch[len(NEUTRAL):]
         for w, pre in (("only", b"only_uid:"), ("exclude", b"exclude_uid:")):
             if ch.startswith(pre) and b";" not in ch:
                 return "\t".join(["spec14", w, cf[1], hexs(ch[len(pre):]), rf[1]])
@@ -174,9 +186,14 @@ def classify(run, res, cases, stream, exe=None):
     for (i, c, impl, sp) in res["spec_bad"]:
         f = c.split("\t")
         if f[0] == "full":
-            run.violation("spec:chain-of-one-uid-filter", "spec_violation", "the chain %r under real uid %s (effective %s) decided %s: not the membership of the real uid"
-                          % ((unhex(f[4]) or b"")[:120], f[1], f[2], impl.split("\t")[1]),
-                          {"stream": stream, "failing_input": c, "impl_output": impl, "model_output": res["model"][i], "cases": [c]})
+            seq = [c]
+            if "chain" not in shrunk:
+                shrunk.add("chain")
+                seq = reproduce(run, exe, cases, i)
+            run.violation("spec:chain-of-one-uid-filter", "spec_violation", "the chain %r under real uid %s (effective %s) decided %s: not the membership of the real uid%s"
+                          % ((unhex(f[4]) or b"")[:120], f[1], f[2], impl.split("\t")[1],
+                             " (as the last of %d calls in one process; the one before: %r)" % (len(seq), (unhex(seq[-2].split("\t")[4]) or b"")[:80]) if len(seq) > 1 else ""),
+                          {"stream": stream, "failing_input": c, "impl_output": impl, "model_output": res["model"][i], "cases": seq})
             nv += 1
             continue
         sig = "spec:%s-membership" % f[1]
